@@ -130,7 +130,8 @@ pub fn check_forest(g: &Graph, texts: &Lib, check_order: bool) -> Result<BTreeMa
     if check_order {
         for (k, order) in &per_key {
             let text = texts.get(k).cloned().unwrap_or_default();
-            let want = scan_texts(&text);
+            // (an item that starts with a code block, quote, table or rule has an empty text)
+            let want: Vec<String> = scan_texts(&text).into_iter().filter(|t| !t.is_empty()).collect();
             let got: Vec<String> = order
                 .iter()
                 .filter_map(|id| {
@@ -141,6 +142,7 @@ pub fn check_forest(g: &Graph, texts: &Lib, check_order: bool) -> Result<BTreeMa
                         None
                     }
                 })
+                .filter(|t| !t.is_empty())
                 .collect();
             if got != want {
                 return Err(("c20|walk-order".into(), format!("note {}: walk gives {:?}\nscan gives {:?}\ntext:\n{}", k, got, want, text)));
